@@ -8,6 +8,7 @@ use jsonpath_rust::query::queryable::Queryable;
 use jsonpath_rust::query::{js_path_process, QueryRef};
 use jsonpath_rust::JsonPath;
 use serde_json::Value;
+use crate::allocseam::in_library;
 use std::collections::HashMap;
 
 pub type LocMap = HashMap<usize, String>;
@@ -122,21 +123,21 @@ fn fmt_w<T: Subject>(locs: &LocMap, res: Vec<QueryRef<T>>) -> String {
 }
 
 pub fn obs_w<T: Subject>(doc: &T, locs: &LocMap, q: &str) -> String {
-    match doc.query_with_path(q) {
+    match in_library(|| doc.query_with_path(q)) {
         Ok(res) => fmt_w(locs, res),
         Err(_) => "Err".into(),
     }
 }
 
 pub fn obs_p<T: Subject>(doc: &T, q: &str) -> String {
-    match doc.query_only_path(q) {
+    match in_library(|| doc.query_only_path(q)) {
         Ok(res) => format!("Ok[{}]", res.join(";")),
         Err(_) => "Err".into(),
     }
 }
 
 pub fn obs_q<T: Subject>(doc: &T, locs: &LocMap, q: &str) -> String {
-    match doc.query(q) {
+    match in_library(|| doc.query(q)) {
         Ok(res) => {
             let items: Vec<String> = res.into_iter().map(|n| format!("{}|{}", loc_of(locs, n), n.json())).collect();
             format!("Ok[{}]", items.join(";"))
@@ -148,7 +149,7 @@ pub fn obs_q<T: Subject>(doc: &T, locs: &LocMap, q: &str) -> String {
 pub fn obs_e<T: Subject>(doc: &T, locs: &LocMap, pq: &Result<JpQuery, ()>) -> String {
     match pq {
         Err(_) => "Err".into(),
-        Ok(pq) => match js_path_process(pq, doc) {
+        Ok(pq) => match in_library(|| js_path_process(pq, doc)) {
             Ok(res) => fmt_w(locs, res),
             Err(_) => "Err".into(),
         },
@@ -156,7 +157,7 @@ pub fn obs_e<T: Subject>(doc: &T, locs: &LocMap, pq: &Result<JpQuery, ()>) -> St
 }
 
 pub fn parse(q: &str) -> Result<JpQuery, ()> {
-    parse_json_path(q).map_err(|_| ())
+    in_library(|| parse_json_path(q)).map_err(|_| ())
 }
 
 pub fn obs_parse(pq: &Result<JpQuery, ()>) -> String {
@@ -167,7 +168,8 @@ pub fn obs_parse(pq: &Result<JpQuery, ()>) -> String {
 }
 
 pub fn obs_ref<T: Subject>(doc: &T, locs: &LocMap, path: &str) -> String {
-    match doc.reference(path.to_string()) {
+    let path = path.to_string();
+    match in_library(|| doc.reference(path)) {
         Some(n) => format!("Some({})", loc_of(locs, n)),
         None => "None".into(),
     }
